@@ -35,7 +35,7 @@ from .. import tq
 from ..interp import State
 from ..terms import Dim, T, Term, V, vconst
 
-FLOOR = 30
+FLOOR = 60
 CLS = "skmatter.neighbors.SparseKDE"
 MOD = "skmatter.neighbors._sparsekde"
 
@@ -164,6 +164,116 @@ def check(ctx):
             t = repr(gw.term)
             ctx.ob("R-ASSIGN", f"grid weights = assignment accumulator over the descriptors with their normalised weights [{cfg}]", gw.term.op == "loop" and tq.has_sym(gw.term, "descriptors") and tq.has_sym(gw.term, "weights"), t[:160], site, cfg)
             ctx.ob("R-SELF", f"fit returns self [{cfg}]", r.kind == "obj" and r.obj is o.obj, f"{r!r}", site, cfg, nontrivial=False)
+    # ---- localisation tuners, nearest-grid distance, normalisation constants ------------------------------
+    for cell_on in (False, True):
+        cfg = f"cell={cell_on}"
+        cellv = arr("cell", "F", inp=False) if cell_on else vconst(None)
+
+        def pop_stub(interp, clo, args, kw, st_, node):
+            g = args[1]
+            n = g.shape[0] if g.shape else Dim.unknown("g")
+            return interp.mk_tuple([V("arr", T("WL", *[a_.term for a_ in args]), shape=(n,), orig=frozenset([("fresh",)]), loc=0), V("float", T("FL", *[a_.term for a_ in args]), shape=())])
+
+        stubs = {"_local_population": pop_stub, "population": pop_stub}
+        mk_in = lambda: (arr("grid", "G", "F", inp=False), arr("gw", "G", inp=False), arr("sigma2", "G", inp=False), arr("flocal", "G", inp=False), index("i", "G"))
+        # fraction-of-spread tuner
+        X, gw, s2v, fl, i = mk_in()
+        md = arr("mindist", "G", inp=False)
+        I, st = ctx.interp(stubs=stubs, assume=protocols.assume_default), State()
+        o = ctx.bare_object(I, st, cls, {"cell": cellv})
+        r = ctx.call_method(I, st, o, "_tune_localization_factor_based_on_fraction_of_spread", X, gw, s2v, fl, i, md)
+        X2, gw2, s22, fl2, i2 = mk_in()
+        I2, s2_ = ctx.interp(stubs=stubs, assume=protocols.assume_default), State()
+        ref = ctx.call_func(I2, s2_, "ref.sparsekde_ref.tune_by_spread", cellv, X2, gw2, s22, fl2, i2, md)
+        site = ctx.site(P.method(cls, "_tune_localization_factor_based_on_fraction_of_spread"))
+        for nm, k in (("sigma2", 0), ("flocal", 1), ("wlocal", 2)):
+            ctx.compare("NF-LOCAL", f"spread tuner: {nm} [{cfg}]", N, r.items[k], ref.items[k], site, cfg)
+        # fraction-of-points tuner
+        X, gw, s2v, fl, i = mk_in()
+        delta, tune, fp = scalar("delta", 0, None), scalar("tune", 0, None), scalar("fpoints", 0, 1)
+        I, st = ctx.interp(stubs=stubs, assume=protocols.assume_default), State()
+        o = ctx.bare_object(I, st, cls, {"cell": cellv, "fpoints": fp})
+        r = ctx.call_method(I, st, o, "_tune_localization_factor_based_on_fraction_of_points", X, gw, s2v, fl, i, delta, tune)
+        X2, gw2, s22, fl2, i2 = mk_in()
+        I2, s2_ = ctx.interp(stubs=stubs, assume=protocols.assume_default), State()
+        ref = ctx.call_func(I2, s2_, "ref.sparsekde_ref.tune_by_points", cellv, X2, gw2, s22, fl2, i2, delta, tune, fp)
+        site = ctx.site(P.method(cls, "_tune_localization_factor_based_on_fraction_of_points"))
+        for nm, k in (("sigma2", 0), ("flocal", 1), ("wlocal", 2)):
+            ctx.compare("NF-LOCAL", f"points tuner (widen, then bisect to within delta): {nm} [{cfg}]", N, r.items[k], ref.items[k], site, cfg)
+    # ---- what fit hands to the tuners: tune, delta, initial localisation, nearest-grid distance ------------
+    for cell_on in (False, True):
+        for mode in ("fpoints", "fspread"):
+            cfg = f"cell={cell_on},{mode}"
+            got = {}
+
+            def pop2(interp, clo, args, kw, st_, node):
+                g = args[1]
+                n = g.shape[0] if g.shape else Dim.unknown("g")
+                got.setdefault("pop", []).append(args)
+                return interp.mk_tuple([V("arr", T("WL", *[a_.term for a_ in args]), shape=(n,), orig=frozenset([("fresh",)]), loc=0), V("float", T("FL", *[a_.term for a_ in args]), shape=())])
+
+            def tuner(name):
+                def f(interp, clo, args, kw, st_, node):
+                    got.setdefault(name, []).append(args)
+                    return interp.mk_tuple([args[2], args[3], V("arr", T("WLT", args[4].term), shape=(Dim.of("G"),), orig=frozenset([("fresh",)]), loc=0)])
+
+                return f
+
+            def bw_stub(interp, clo, args, kw, st_, node):
+                F = Dim.of("F")
+                return interp.mk_tuple([V("arr", T("BW", *[a_.term for a_ in args]), shape=(F, F), orig=frozenset([("fresh",)]), loc=0), V("arr", T("BC", *[a_.term for a_ in args]), shape=(F, F), orig=frozenset([("fresh",)]), loc=0)])
+
+            def cov2(interp, clo, args, kw, st_, node):
+                return V("arr", T("COV", *[a_.term for a_ in args]), shape=(Dim.of("F"), Dim.of("F")), orig=frozenset([("fresh",)]), loc=0)
+
+            stubs = {"_local_population": pop2, "_covariance": cov2, "SparseKDE._tune_localization_factor_based_on_fraction_of_points": tuner("points"), "SparseKDE._tune_localization_factor_based_on_fraction_of_spread": tuner("spread"), "SparseKDE._bandwidth_estimation_from_localization": bw_stub}
+            I = ctx.interp(assume=protocols.assume_default, stubs=stubs)
+            st = State()
+            Gd, gw, md = arr("grid", "G", "F", inp=False), arr("gw", "G", inp=False), arr("mindist", "G", inp=False)
+            cellv = arr("cell", "F", inp=False) if cell_on else vconst(None)
+            fs = scalar("fspread", 0, None) if mode == "fspread" else vconst(-1.0)
+            fp = vconst(-1.0) if mode == "fspread" else scalar("fpoints", 0, 1)
+            o = ctx.bare_object(I, st, cls, {"cell": cellv, "fspread": fs, "fpoints": fp, "nsamples": integer("D"), "verbose": False})
+            ctx.call_method(I, st, o, "_computes_localized_bandwidth", Gd, gw, md)
+            site = ctx.site(P.method(cls, "_computes_localized_bandwidth"))
+            tune_want = T("sum", T("pow", cellv.term, T("const", Fraction(2)))) if cell_on else T("trace", T("COV", Gd.term, gw.term, cellv.term))
+            s_init = T("smul", tune_want, T("pow", fs.term, T("const", Fraction(2)))) if mode == "fspread" else tune_want
+            pops = got.get("pop", [])
+            ok = bool(pops) and all(len(a_) == 5 for a_ in pops)
+            if ctx.ob("NF-LOCAL", f"main loop measures the local population of every grid point [{cfg}]", ok, f"{len(pops)} calls", site, cfg):
+                first = pops[0][4]
+                # sigma2[i] of the initial localisation: full(tune) (times fspread^2 when the spread mode is on)
+                want_first = T("getitem", T("full", s_init, T("dim", Dim.of("G"))), T("lv", "L1"))
+                okv = N.nf(first.term) == N.nf(want_first) or N.nf(first.term) == N.nf(T("getitem", T("smul", T("pow", fs.term, T("const", Fraction(2))), T("full", tune_want, T("dim", Dim.of("G")))), T("lv", "L1")))
+                ctx.ob("NF-LOCAL", f"initial localisation sigma2 = {'fspread^2 * ' if mode == 'fspread' else ''}{'sum(cell^2)' if cell_on else 'trace of the weighted covariance'} [{cfg}]", okv, f"sigma2[i] passed first = {first.term!r}"[:300], site, cfg)
+            if mode == "fpoints":
+                calls = got.get("points", [])
+                if ctx.ob("NF-LOCAL", f"the fraction-of-points tuner is used when fpoints > 0 [{cfg}]", len(calls) >= 1 and not got.get("spread"), f"points calls {len(calls)}, spread calls {len(got.get('spread', []))}", site, cfg):
+                    a_ = calls[0]
+                    ctx.ob("NF-LOCAL", f"tuner tolerance delta = 1 / nsamples [{cfg}]", N.nf(a_[5].term) == N.nf(T("div", T("const", Fraction(1)), T("dim", Dim.of("D")))), f"delta = {a_[5].term!r}", site, cfg)
+                    ctx.ob("NF-LOCAL", f"tuner step = the global scale `tune` [{cfg}]", N.nf(a_[6].term) == N.nf(tune_want), f"tune = {a_[6].term!r}"[:200], site, cfg)
+            else:
+                calls = got.get("spread", [])
+                if ctx.ob("NF-LOCAL", f"the fraction-of-spread tuner is the only tuner when fpoints <= 0 [{cfg}]", len(calls) >= 1 and not got.get("points"), f"spread calls {len(calls)}, points calls {len(got.get('points', []))}", site, cfg):
+                    ctx.ob("NF-LOCAL", f"spread tuner receives the nearest-other-grid distances [{cfg}]", calls[0][5].term == md.term, f"mindist argument = {calls[0][5].term!r}", site, cfg)
+    # nearest other grid point: diagonal masked before the row minimum; normalisation constants
+    I, st = ctx.interp(assume=protocols.assume_default, stubs={"SparseKDE._assign_descriptors_to_grids": (lambda i_, c_, a_, k_, s_, n_: i_.mk_tuple([vconst(None), V("dict", T("sym", "members")), arr("labels", "D", inp=False), arr("gw", "G", inp=False)])), "SparseKDE._computes_localized_bandwidth": (lambda i_, c_, a_, k_, s_, n_: (mdgot.append(a_[2]), vconst(None))[1])}), State()
+    mdgot = []
+    Dm = arr("GD", "G", "G", inp=False)
+    o = ctx.bare_object(I, st, cls, {"metric": V("func", T("metric"), func=("builtin", (lambda i_, a_, k_, s_, n_: Dm), "metric")), "cell": vconst(None), "verbose": False, "descriptors": arr("descriptors", "D", "F", inp=False), "weights": arr("weights", "D", inp=False)})
+    ctx.call_method(I, st, o, "fit", arr("grid", "G", "F"))
+    I2, s2_ = ctx.interp(), State()
+    Dm2 = arr("GD", "G", "G", inp=False)
+    ref = ctx.call_func(I2, s2_, "ref.sparsekde_ref.nearest_other_grid_distance", Dm2)
+    if ctx.ob("NF-LOCAL", "fit passes a nearest-grid distance to the bandwidth estimation", len(mdgot) == 1, f"{len(mdgot)} calls", ctx.site(P.method(cls, "fit"))):
+        ctx.compare("NF-LOCAL", "mindist = row minimum of the grid distance matrix with the diagonal excluded", N, mdgot[0], ref, ctx.site(P.method(cls, "fit")))
+    I, st = ctx.interp(assume=protocols.assume_default), State()
+    bwv = arr("bandwidth", "G", "F", "F", inp=False)
+    o = ctx.bare_object(I, st, cls, {"descriptors": arr("descriptors", "D", "F", inp=False), "bandwidth_": bwv, "fitted_": True, "_normkernels_": vconst(None)})
+    nkv = ctx._run(I, st, lambda: I.getattr_obj(o, "_normkernels", st))
+    I2, s2_ = ctx.interp(), State()
+    ref = ctx.call_func(I2, s2_, "ref.sparsekde_ref.norm_kernels", bwv, integer("F"))
+    ctx.compare("NF-MIXTURE", "normkernel_j = D log(2 pi) + log det H_j (exact)", N, nkv, ref, ctx.site(cls.methods["_normkernels"]))
     # ---- bandwidth formula -------------------------------------------------------------------------------
     def cov_stub(interp, clo, args, kw, st_, node):
         return V("arr", T("COV", *[a.term for a in args]), shape=(Dim.of("F"), Dim.of("F")), orig=frozenset([("fresh",)]), loc=0)
